@@ -785,6 +785,9 @@ func (p *Parser[V]) Parse(str string, idents Identifiers[V]) (ast AST, err error
 			SetComments(p.allowComments).
 			SetComfort(p.comfort).
 			Start()
+	// If parsing stops before the end of the input is reached, the goroutine of
+	// the tokenizer is blocked forever: it is released by reading the remaining tokens.
+	defer tokenizer.drain()
 
 	ast, err = p.parseLet(tokenizer, idents)
 	if err != nil {
